@@ -673,6 +673,8 @@ namespace Pistache
             public:
                 explicit ParserImpl(size_t maxDataSize);
 
+                void reset() override;
+
                 Response response;
             };
 
